@@ -35,3 +35,11 @@ Inductive reduce_rule :=
 | RTensorTorch            (* every other tensor (dense, COO coalesced or not, BSR, BSC): torch's reduce_tensor *)
 | RStorageTorch           (* torch.UntypedStorage: torch's reduce_storage *)
 | ROwnReduction.          (* return NotImplemented: the object's own __reduce_ex__(5), for ndarray NumPy's *)
+
+(* what worker.initalize (the initialiser the executor runs once in every fresh worker process) does, statement by
+   statement (logging left out); the extractor refuses every other statement *)
+Inductive init_step :=
+| InitDeclareGlobals      (* global __work_context, __progress *)
+| InitCurrentProcess      (* proc = mp.current_process() *)
+| InitFilterWarnings      (* warnings.filterwarnings("ignore", "Sparse CSR tensor support is in beta state", UserWarning) *)
+| InitRebuildContext.     (* __work_context = shm_deserialize(ctx)   (an exception is re-raised) *)
